@@ -162,3 +162,34 @@ theorem good_list (H : List UInt8 → List UInt8) : ∀ cs : List Cell, Spec.wfS
 end
 
 end Tongo.CellHashLemmas
+
+namespace Tongo.CellHashLemmas
+
+theorem wfNode_sizesNode {ty mask bits kids} (h : Spec.wfNode ty mask bits kids = true) :
+    Spec.sizesNode ty mask bits kids = true := by
+  simp only [Spec.wfNode, Bool.and_eq_true, decide_eq_true_eq] at h
+  obtain ⟨⟨⟨hm, _⟩, _⟩, hc⟩ := h
+  simp only [Spec.sizesNode, Bool.and_eq_true, decide_eq_true_eq, Bool.or_eq_true, bne_iff_ne, ne_eq]
+  refine ⟨hm, ?_⟩
+  by_cases hty : ty = tyPruned
+  · right
+    subst hty
+    simp only [show tyPruned ≠ tyOrdinary from by decide, if_false, if_true, Bool.and_eq_true, beq_iff_eq] at hc
+    exact ⟨hc.1.1, by omega⟩
+  · left; exact hty
+
+mutual
+theorem wfExotic_wfSizes : ∀ c : Cell, Spec.wfExotic c = true → Spec.wfSizes c = true
+  | .mk ty mask bits refs, h => by
+    simp only [Spec.wfExotic, Bool.and_eq_true] at h
+    simp only [Spec.wfSizes, Bool.and_eq_true]
+    exact ⟨wfNode_sizesNode h.1, wfExoticL_wfSizesL refs h.2⟩
+theorem wfExoticL_wfSizesL : ∀ cs : List Cell, Spec.wfExoticL cs = true → Spec.wfSizesL cs = true
+  | [], _ => rfl
+  | c :: cs, h => by
+    simp only [Spec.wfExoticL, Bool.and_eq_true] at h
+    simp only [Spec.wfSizesL, Bool.and_eq_true]
+    exact ⟨wfExotic_wfSizes c h.1, wfExoticL_wfSizesL cs h.2⟩
+end
+
+end Tongo.CellHashLemmas
